@@ -59,6 +59,11 @@ def main():
             rc, out = sh('git apply %s' % os.path.join(dst, 'patch.diff'), cwd=wt)
             meta['patch_applies'] = rc == 0
             rc, out = sh('cargo test --offline 2>&1 | grep "test result"', cwd=wt, env=env)
+            if 'FAILED' in out:
+                # the suite has timing-sensitive socket tests (test_kill_switch); a failure must reproduce to count
+                rc, out2 = sh('cargo test --offline 2>&1 | grep "test result"', cwd=wt, env=env)
+                meta['suite_first_run_had_failure'] = out.strip()
+                out = out2
             meta['suite_with_change'] = out.strip()
             meta['suite_passes_with_change'] = ('failed' in out and all(' 0 failed' in l for l in out.strip().split('\n') if l)) and out.count('test result: ok') >= 2
             os.makedirs(os.path.join(wt, 'tests'), exist_ok=True)
